@@ -41,6 +41,19 @@ class Unsupported(Exception):
     pass
 
 
+def inflate64_roundtrips(data: bytes) -> bool:
+    """does the inflate64 library encode and decode this byte string faithfully?  (KF-47: it does not when a match of
+    length 260..262 or 65790..65792 occurs)"""
+    import inflate64
+
+    try:
+        c = inflate64.Deflater()
+        enc = c.deflate(data) + c.flush()
+        return inflate64.Inflater().inflate(enc) == data
+    except Exception:
+        return False
+
+
 class CoderError(Exception):
     pass
 
@@ -214,7 +227,12 @@ def encode_stage(coder: dict, data: bytes, password=None) -> bytes:
         import inflate64
         coder.setdefault("props", None)
         c = inflate64.Deflater()
-        return c.deflate(data) + c.flush()
+        enc = c.deflate(data) + c.flush()
+        # inflate64's *encoder* mis-codes matches of length 260..262 and 65790..65792 (KF-47): a stream that its own decoder does
+        # not turn back into the input cannot serve as a reference archive
+        if inflate64.Inflater().inflate(enc) != data:
+            raise Unsupported("inflate64 encoder defect (KF-47) on this input")
+        return enc
     if m == M_ZSTD:
         import pyzstd
         level = coder.get("level", 3)
